@@ -109,6 +109,19 @@ PROPS = {
         technique="runtime monitoring: exhaustive sweep of the call limit per (grammar, input) with result-equality and monotonicity oracle, refusal events from hooks",
         assumptions=["cases the reference interpreter cannot finish are not parsed without a limit"],
     ),
+    "C15": dict(
+        runs=[dict(bin="mon", sub="c15", features="", config="default")],
+        rule=("random grammars (G full) x every start rule x inputs (short exhaustive + walks + mutants): the same VM parse with "
+              "set_error_detail(false) and (true). Oracle: identical success / tokens / error position / positives / negatives / line-col; no "
+              "panic that the plain parse does not have; with the flag on, parse_attempts().max_position is a char boundary within the input and "
+              "parse_attempts_error(..) and its Display render. Non-trivial: a failing parse that recorded attempt information on a non-empty "
+              "input, or a successful parse of >= 2 bytes; distinct = (grammar, rule, input) hashes."),
+        level_text=("Exploration: every generated parse is executed twice on the real engine, flag off and on, and compared field by field; the "
+                    "extra attempt information is checked for well-formedness and renderability."),
+        level_note="Process-global flag: each shard is a single-threaded process. Documented panics (POP/PEEK on an empty stack) must occur in both runs.",
+        technique="runtime monitoring: differential oracle over the error-detail flag (same parse, flag off vs on) plus well-formedness checks of the recorded attempts",
+        assumptions=["cases the reference interpreter cannot finish are skipped and counted"],
+    ),
 }
 
 HOOK_COMMITS = [
